@@ -19,10 +19,15 @@ _TAB = None
 _OPTS = None
 
 
+def get_table(tabname):
+    from realize import DYNAMIC
+    return DYNAMIC[tabname] if tabname in DYNAMIC else Table.load(tabname)
+
+
 def _init(tabname, opts):
     global _TAB, _OPTS  # pylint: disable=global-statement
     det.install()
-    _TAB = Table.load(tabname)
+    _TAB = get_table(tabname)
     _OPTS = opts
 
 
@@ -42,6 +47,8 @@ def replay_one(item):
             break
         if s.iso is None or not getattr(s.iso, '_initialized', False):
             obs = None
+        elif len(ev) < len(acts) - _OPTS.get('peek_last', 1 << 30):
+            obs = 'skip'      # long behaviours: only the last steps are observed
         else:
             try:
                 obs = s.peek()
@@ -217,6 +224,8 @@ def build_input(tab, traces):
     obs_list = []
 
     def idx(o):
+        if o == 'skip':
+            return 0
         if o is None:
             o = EMPTY_OBS
         if 'peek_error' in o:
@@ -247,9 +256,31 @@ def build_input(tab, traces):
                 d['basekind'] = e.get('basekind', 'none')
             ev.append(d)
         out_tr.append({'id': t['id'], 'ev': ev})
+    used = set()
+
+    def note_paths(x):
+        if isinstance(x, dict):
+            for v in x.values():
+                note_paths(v)
+        elif isinstance(x, list):
+            for v in x:
+                if isinstance(v, str):
+                    used.add(v)
+                else:
+                    note_paths(v)
+    if len(tab.names) > 40:
+        for t in out_tr:
+            for e in t['ev']:
+                note_paths(e['a'])
+        for o in obs_list:
+            for ns in ('iso', 'rrv', 'jol', 'udf'):
+                for e in o[ns]:
+                    used.update(e['p'])
+                    if e.get('rr'):
+                        used.add(e['rr'])
     names = [{'id': n, 'iso': [ord(c) for c in m['iso']], 'rr': [ord(c) for c in m['rr']],
               'jol': [ord(c) for c in m['jol']], 'udf': [ord(c) for c in m['udf']]}
-             for n, m in sorted(tab.names.items())]
+             for n, m in sorted(tab.names.items()) if len(tab.names) <= 40 or n in used]
     blobs = [{'id': b, 'len': len(tab.blobdata[b])} for b in sorted(tab.blobs)]
     return {'names': names, 'blobs': blobs, 'targets': sorted(tab.targets), 'obs': obs_list,
             'traces': out_tr}
